@@ -30,8 +30,10 @@ TRUSTED_BASE = [
 ASSUMPTIONS = [
     "NetSys: every frame returned by get_frame joins `emitted` and every emitted frame gets at most one outcome, ACKED only "
     "after it was handed to the receiver (C08 callbacks_at_most_once, C12 ack soundness) -- checked on every replayed trace",
-    "liveness (everything written is eventually delivered) is proved only as nothing_forgotten + fair_schedule_completes over "
-    "the model; under the real timers it is observed on the explored runs, not proved",
+    "liveness (everything written is eventually delivered) is proved only over the model: nothing_forgotten, "
+    "fair_schedule_completes (explicit bounded continuation from every reachable state), schedule_accounting / "
+    "fair_rounds_complete / fair_round_exists (any schedule with unacked-many useful acknowledgements completes, and one is "
+    "always possible); under the real timers it is observed on the explored runs, not proved",
 ]
 
 NO_CLOSE_CODES = ()
